@@ -9,7 +9,8 @@
 //       accept, and every single mutation of the transaction / spent outputs / annex must flip the verdict iff the
 //       commitment table (transcribed from the legacy rules, BIP143, BIP341) says the field is covered; every
 //       single-bit change of the signature, every other hash-type byte, the wrong key, the empty signature must be
-//       rejected; the high-S twin is accepted iff LOW_S is not set. Lines "E" let check.py verify the accepted
+//       rejected; the high-S twin is accepted iff LOW_S is not set; every evaluation is repeated three times through a
+//       CachingTransactionSignatureChecker on a shared SignatureCache and must keep its verdict. Lines "E" let check.py verify the accepted
 //       signature against the reference digest with the pure-Python ECDSA/BIP340 verifier.
 #include <vx/vx.h>
 
@@ -21,6 +22,7 @@
 #include <script/interpreter.h>
 #include <script/script.h>
 #include <script/script_error.h>
+#include <script/sigcache.h>
 #include <script/signingprovider.h>
 #include <streams.h>
 #include <uint256.h>
@@ -263,14 +265,40 @@ struct Case {
     uint32_t codesep_pos = 0xFFFFFFFFu;
 };
 
+// Repeat dimension: validation checks signatures through CachingTransactionSignatureChecker with one SignatureCache
+// shared by many checks. Every evaluation of the soundness layer is therefore repeated through a caching checker
+// (store=true) twice and once more with store=false, on a cache shared by all cases of the same spend kind; each of the
+// three verdicts must equal the verdict of the plain checker (a failed check must not make a later identical check pass).
+static std::unique_ptr<SignatureCache> g_sigcache[16];
+static thread_local int tl_kind = -1;
+static thread_local const std::string* tl_where = nullptr;
+static std::atomic<uint64_t> g_cached_evals{0}, g_cached_accepts{0}, g_cached_rejects{0};
+
 static bool verify(const CMutableTransaction& tx, const std::vector<CTxOut>& spent, unsigned nIn, script_verify_flags flags = FLAGS, ScriptError* err = nullptr)
 {
-    PrecomputedTransactionData txdata;
-    txdata.Init(tx, std::vector<CTxOut>(spent), /*force=*/false);
-    GenericTransactionSignatureChecker<CMutableTransaction> checker(&tx, nIn, spent[nIn].nValue, txdata, MissingDataBehavior::FAIL);
     ScriptError e;
-    bool ok = VerifyScript(tx.vin[nIn].scriptSig, spent[nIn].scriptPubKey, &tx.vin[nIn].scriptWitness, flags, checker, &e);
+    bool ok;
+    {
+        PrecomputedTransactionData txdata;
+        txdata.Init(tx, std::vector<CTxOut>(spent), /*force=*/false);
+        GenericTransactionSignatureChecker<CMutableTransaction> checker(&tx, nIn, spent[nIn].nValue, txdata, MissingDataBehavior::FAIL);
+        ok = VerifyScript(tx.vin[nIn].scriptSig, spent[nIn].scriptPubKey, &tx.vin[nIn].scriptWitness, flags, checker, &e);
+    }
     if (err) *err = e;
+    if (tl_kind >= 0) {
+        const CTransaction ctx{tx};
+        for (int round = 0; round < 3; round++) {
+            PrecomputedTransactionData txdata;
+            txdata.Init(ctx, std::vector<CTxOut>(spent), /*force=*/false);
+            CachingTransactionSignatureChecker checker(&ctx, nIn, spent[nIn].nValue, /*storeIn=*/round < 2, *g_sigcache[tl_kind], txdata);
+            const bool c = VerifyScript(ctx.vin[nIn].scriptSig, spent[nIn].scriptPubKey, &ctx.vin[nIn].scriptWitness, flags, checker, nullptr);
+            g_cached_evals++;
+            (c ? g_cached_accepts : g_cached_rejects)++;
+            if (c != ok)
+                S.viol(std::string("caching-checker-verdict-differs-") + (ok ? "rejects-valid" : "accepts-invalid") + "-round" + u(round) + "-" + KNAME[tl_kind],
+                       std::string("VerifyScript through CachingTransactionSignatureChecker (") + (round < 2 ? "store=true" : "store=false") + ", evaluation #" + u(round + 1) + " of the same input) returned " + u(c) + " but the plain checker returned " + u(ok) + ": " + (tl_where ? *tl_where : std::string()));
+        }
+    }
     return ok;
 }
 
@@ -526,6 +554,8 @@ static void soundness_layer(bool big)
                 c.ht = ht;
                 std::string where = std::string(KNAME[kind]) + " variant " + u(variant) + " shape " + u(n_in) + "x" + u(n_out) + " nIn " + u(nin) + " hashtype " + u(ht);
                 std::string kbase = std::string(KNAME[kind]) + "-ht" + u(ht);
+                tl_kind = kind;
+                tl_where = &where;
                 if (!build(c, g_keyA)) {
                     n_unsignable++;
                     if (!(tap && (ht & 3) == 3 && nin >= n_out)) S.viol("cannot-sign-" + kbase, "no digest/signature for a signable case: " + where);
@@ -610,6 +640,8 @@ static void soundness_layer(bool big)
                     if (!o) S.viol("rejects-low-s-under-low_s-" + kbase, "CKey::Sign output rejected with LOW_S: " + where);
                 }
             }
+            static const std::string undefined_where = "undefined taproot hash type";
+            tl_where = &undefined_where;
             if (tap && n_in == 2 && n_out == 2) { // undefined taproot hash types are always invalid
                 for (int ht : ht_tap_invalid) {
                     Case c;
@@ -634,6 +666,9 @@ static void soundness_layer(bool big)
     S.stat("misc_signature_checks", n_misc);
     S.stat("unsignable_taproot_single", n_unsignable);
     S.stat("distinct_verdict_classes", verdict_classes.size());
+    S.stat("caching_checker_evaluations", g_cached_evals);
+    S.stat("caching_checker_accepts", g_cached_accepts);
+    S.stat("caching_checker_rejects", g_cached_rejects);
     S.flush();
 }
 
@@ -646,8 +681,11 @@ int main(int argc, char** argv)
     g_keyA.Set(ka.begin(), ka.end(), true);
     g_keyB.Set(kb.begin(), kb.end(), true);
     if (!g_keyA.IsValid() || !g_keyB.IsValid()) { printf("M\tbad keys\n"); return 2; }
+    for (int k = 0; k < NKINDS; k++) g_sigcache[k] = std::make_unique<SignatureCache>(size_t{2} << 20);
     digest_layer(big);
     soundness_layer(big);
+    tl_kind = -1;
+    for (auto& c : g_sigcache) c.reset();
     if (g_incomplete) printf("M\tINCOMPLETE\n");
     S.finish();
     g_keyA = CKey{}; // release secure memory before static destruction
